@@ -34,8 +34,13 @@ def is_sym(v): return not isinstance(v, int)
 def bv(v, bits): return z3.BitVecVal(v, bits) if isinstance(v, int) else v
 
 
+def zsimplify(e):
+    # bit2bool would turn 1-bit xors into nested Boolean ==/ite terms (exponentially bad for CRC circuits)
+    return z3.simplify(e, bit2bool=False)
+
+
 def simp(e):
-    e = z3.simplify(e)
+    e = zsimplify(e)
     if z3.is_bv_value(e): return e.as_long()
     return e
 
@@ -176,7 +181,7 @@ class Path:
 
     def decide(s, cond):
         """cond: z3 Bool. Returns the branch taken on this path (forks recorded in s.alts)."""
-        cond = z3.simplify(cond)
+        cond = zsimplify(cond)
         if z3.is_true(cond): return True
         if z3.is_false(cond): return False
         cid0 = cond.get_id()
@@ -193,6 +198,7 @@ class Path:
         if s.k < len(s.prefix):
             d = s.prefix[s.k]
             if d is not True and d is not False: raise Unsupported('replay desynchronised (expected a branch decision)')
+            s.model = None      # a replayed decision is added without a witness: any cached model is stale
         else:
             m = s.model
             if m is not None:
@@ -248,8 +254,13 @@ class Path:
         if isinstance(e, int): return e
         kv = s.known.get(e.get_id())
         if kv is not None: return kv
-        e2 = z3.simplify(e)
+        e2 = zsimplify(e)
         if z3.is_bv_value(e2): return e2.as_long()
+        if small_domain(e2):
+            # flag-like value (ite tree over constants): decide its conditions as branches (they pass through the GF(2) layer)
+            v = s.eval_small(e2)
+            s.known[e.get_id()] = v; s.keep.append(e)
+            return v
         excl = ()
         if s.k < len(s.prefix):
             ent = s.prefix[s.k]
@@ -258,6 +269,7 @@ class Path:
             if ent[0] == 'eq':
                 v = ent[1]
                 s.trace.append(ent); s.add(e == v); s.known[e.get_id()] = v; s.keep.append(e)
+                s.model = None
                 return v
             excl = ent[1]
             for x in excl: s.add(e != x)
@@ -270,6 +282,24 @@ class Path:
         s.trace.append(('eq', v)); s.add(e == v); s.known[e.get_id()] = v; s.keep.append(e)
         s.model = m
         return v
+
+    def eval_small(s, e):
+        if z3.is_bv_value(e): return e.as_long()
+        k = e.decl().kind()
+        if k == z3.Z3_OP_ITE:
+            return s.eval_small(e.arg(1)) if s.decide(e.arg(0)) else s.eval_small(e.arg(2))
+        if k == z3.Z3_OP_ZERO_EXT: return s.eval_small(e.arg(0))
+        if k == z3.Z3_OP_SIGN_EXT:
+            c = e.arg(0); v = s.eval_small(c); n = c.size()
+            return mask(sx(v, n), e.size())
+        if k == z3.Z3_OP_EXTRACT:
+            hi, lo = e.decl().params()
+            return (s.eval_small(e.arg(0)) >> lo) & ((1 << (hi - lo + 1)) - 1)
+        if k == z3.Z3_OP_CONCAT:
+            v = 0
+            for c in e.children(): v = (v << c.size()) | s.eval_small(c)
+            return v
+        raise Unsupported('eval_small on ' + e.decl().name())
 
     # ---------------------------------------------------------------- memory
     def alloc(s, size, name):
@@ -354,7 +384,7 @@ class Path:
             else:
                 cells = []
                 for k in range(nbytes):
-                    c = z3.simplify(z3.Extract(8 * k + 7, 8 * k, v))
+                    c = zsimplify(z3.Extract(8 * k + 7, 8 * k, v))
                     cells.append(c.as_long() if z3.is_bv_value(c) else c)
         s.store_cells(addr, cells)
 
@@ -462,7 +492,7 @@ def icmp(pred, a, b, bits):
     elif pred == 'sgt': c = A > B
     elif pred == 'sge': c = A >= B
     else: raise Unsupported(pred)
-    c = z3.simplify(c)
+    c = zsimplify(c)
     if z3.is_true(c): return 1
     if z3.is_false(c): return 0
     return z3.If(c, ONE1, ZERO1)
@@ -482,7 +512,27 @@ def as_cond(v):
     return v == ONE1
 
 
+
+def small_domain(e, depth=0):
+    """True if `e` is a tree of ite / extensions / extracts over constants only (a flag- or counter-like value:
+    few possible values). Such operands of add/sub/mul are concretised (forked) instead of building arithmetic over
+    conditions, which keeps counters concrete."""
+    if depth > 6: return False
+    if z3.is_bv_value(e): return True
+    if not z3.is_app(e): return False
+    k = e.decl().kind()
+    if k == z3.Z3_OP_ITE:
+        return small_domain(e.arg(1), depth + 1) and small_domain(e.arg(2), depth + 1)
+    if k in (z3.Z3_OP_ZERO_EXT, z3.Z3_OP_SIGN_EXT, z3.Z3_OP_EXTRACT):
+        return small_domain(e.arg(0), depth + 1)
+    if k == z3.Z3_OP_CONCAT:
+        return all(small_domain(c, depth + 1) for c in e.children())
+    return False
+
 # ----------------------------------------------------------------------------- interpreter
+ARITH = ('add', 'sub', 'mul', 'udiv', 'urem', 'sdiv', 'srem')
+
+
 class Frame:
     __slots__ = ('regs', 'allocas')
     def __init__(s): s.regs = {}; s.allocas = []
@@ -573,15 +623,22 @@ class Interp:
                     ins = insts[k]; k += 1
                     op = ins[0]
                     if op == 'load':
-                        regs[ins[1]] = s.load_plan(val(fr, ins[3]), s.plan(ins[2]))
+                        a = val(fr, ins[3])
+                        if a.__class__ is z3.BitVecRef: a = p.concretize(a, 'pointer')
+                        regs[ins[1]] = s.load_plan(a, s.plan(ins[2]))
                     elif op == 'store':
                         a = val(fr, ins[3])
+                        if a.__class__ is z3.BitVecRef: a = p.concretize(a, 'pointer')
                         if not isinstance(a, int): raise Unsupported('store to non-concrete address')
                         s.store_plan(a, s.plan(ins[1]), val(fr, ins[2]))
                     elif op == 'gep':
                         regs[ins[1]] = s.gep(fr, ins)
                     elif op == 'bin':
-                        regs[ins[1]] = binop(ins[2], val(fr, ins[4]), val(fr, ins[5]), ins[3])
+                        a = val(fr, ins[4]); b = val(fr, ins[5])
+                        if ins[2] in ARITH:
+                            if a.__class__ is z3.BitVecRef and small_domain(a): a = p.concretize(a, 'flag/counter operand')
+                            if b.__class__ is z3.BitVecRef and small_domain(b): b = p.concretize(b, 'flag/counter operand')
+                        regs[ins[1]] = binop(ins[2], a, b, ins[3])
                     elif op == 'icmp':
                         regs[ins[1]] = icmp(ins[2], val(fr, ins[4]), val(fr, ins[5]), ins[3])
                     elif op == 'condbr':
@@ -613,6 +670,8 @@ class Interp:
                                 regs[ins[1]] = a if p.decide(as_cond(c)) else b
                             elif a is None or b is None:
                                 regs[ins[1]] = a if p.decide(as_cond(c)) else b
+                            elif isinstance(a, int) and isinstance(b, int) and a == b:
+                                regs[ins[1]] = a
                             else:
                                 regs[ins[1]] = simp(z3.If(as_cond(c), bv(a, ins[3]), bv(b, ins[3])))
                     elif op == 'alloca':
@@ -715,7 +774,7 @@ class Interp:
                 return None
             if c.size() > 1: c = z3.Extract(0, 0, c)
             c2 = simp(c)
-            cond = z3.simplify(as_cond(c2)) if not isinstance(c2, int) else z3.BoolVal(bool(c2 & 1))
+            cond = zsimplify(as_cond(c2)) if not isinstance(c2, int) else z3.BoolVal(bool(c2 & 1))
             if z3.is_false(cond): raise PathEnd('infeasible', 'assume(false)')
             if z3.is_true(cond): return None
             cond, eqs, pure = p.gf2.rewrite(cond)
@@ -772,18 +831,18 @@ class Interp:
         p = s.p
         pol = p.alloc_policy
         if pol == 'none':
-            raise PathEnd('fail', 'heap allocation on a path that must not allocate')
+            raise PathEnd('alloc', 'heap allocation on a path that must not allocate')
         if not isinstance(size, int):
             if pol is not None and pol[0] == 'max_total':
                 lim = pol[1] - p.heap_total
                 if p.decide(z3.UGT(size, z3.BitVecVal(max(lim, 0), size.size()))):
                     m = p.feasible_model()
-                    raise PathEnd('fail', 'heap request of %d bytes exceeds the input-proportional bound %d' % (m.eval(size, model_completion=True).as_long(), pol[1]))
+                    raise PathEnd('alloc', 'heap request of %d bytes exceeds the input-proportional bound %d' % (m.eval(size, model_completion=True).as_long(), pol[1]))
             size = p.concretize(size, 'allocation size')
         p.allocs.append(size); p.heap_total += size
         if pol is not None and pol != 'none' and pol[0] == 'max_total' and p.heap_total > pol[1]:
-            raise PathEnd('fail', 'heap requests total %d bytes > input-proportional bound %d' % (p.heap_total, pol[1]))
-        if size > (1 << 26): raise PathEnd('fail', 'heap request of %d bytes' % size)
+            raise PathEnd('alloc', 'heap requests total %d bytes > input-proportional bound %d' % (p.heap_total, pol[1]))
+        if size > (1 << 26): raise PathEnd('alloc', 'heap request of %d bytes (more than 64 MiB)' % size)
         return size
 
     def grow_one_u8(s, rv):
@@ -822,6 +881,8 @@ class Interp:
 
     def memcmp(s, a, b, n, name):
         p = s.p
+        if a.__class__ is z3.BitVecRef: a = p.concretize(a, 'pointer')
+        if b.__class__ is z3.BitVecRef: b = p.concretize(b, 'pointer')
         if not isinstance(n, int): n = p.concretize(n, 'memcmp length')
         if n == 0: return 0
         ca = p.load_cells(a, n); cb = p.load_cells(b, n)
@@ -835,7 +896,7 @@ class Interp:
                 if x != y: conds = [z3.BoolVal(False)]; break
                 continue
             conds.append(bv(x, 8) == bv(y, 8))
-        eq = z3.simplify(z3.And(*conds)) if conds else z3.BoolVal(True)
+        eq = zsimplify(z3.And(*conds)) if conds else z3.BoolVal(True)
         if z3.is_true(eq): return 0
         if name == 'memcmp':
             # ordering result: decide equality, then find the first differing byte
@@ -856,6 +917,10 @@ class Interp:
         p = s.p
         if n.startswith(('llvm.lifetime', 'llvm.experimental.noalias', 'llvm.assume', 'llvm.dbg', 'llvm.prefetch', 'llvm.donothing')):
             return None
+        if n.startswith(('llvm.memcpy', 'llvm.memmove', 'llvm.memset')):
+            args = list(args)
+            for i in (0, 1) if not n.startswith('llvm.memset') else (0,):
+                if args[i].__class__ is z3.BitVecRef: args[i] = p.concretize(args[i], 'pointer')
         if n.startswith(('llvm.memcpy', 'llvm.memmove')):
             dstp, srcp, ln = args[0], args[1], args[2]
             if not isinstance(ln, int): ln = p.concretize(ln, 'memcpy length')
@@ -894,7 +959,7 @@ class Interp:
             lo = z3.Extract(bits - 1, 0, full)
             if sg: ov = z3.SignExt(bits, lo) != full
             else: ov = z3.Extract(2 * bits - 1, bits, full) != 0
-            ov = z3.simplify(ov)
+            ov = zsimplify(ov)
             ovv = 1 if z3.is_true(ov) else 0 if z3.is_false(ov) else z3.If(ov, ONE1, ZERO1)
             return [simp(lo), ovv]
         m = re.match(r'llvm\.(umax|umin|smax|smin)\.i(\d+)', n)
